@@ -56,10 +56,16 @@ def gen_tokens(rng):
         if rng.random() < 0.08:
             # ... also inside a loop, right before the loop-break ':' (which is an argument separator inside expressions)
             toks += ["[%d" % rng.randint(2, 3), rng.choice(["c", "d8 e"]), rng.choice(["Tempo=%d" % rng.randint(60, 200), "@%d" % rng.randint(1, 128), "TR=1", "v=%d" % rng.randint(1, 127), "y7,%d" % rng.randint(0, 127)]) + "\0", ":", rng.choice(["g", "a b"]), "]"]
+    if rng.random() < 0.08:
+        # a macro / string variable that is defined, referred to without arguments at the end of a line, and a tuplet or a velocity step on the next line
+        d_, r_ = rng.choice([("#M={c8d8}", "#M"), ("STR S2={c8d8};", "S2")])
+        toks += [d_, r_ + "\2", rng.choice(["{efg}4", "(e f) g", "{c d}2 e", "( c"]), "c"]
     toks = [t for t in toks if t]
     # a macro / variable reference takes a directly following `{…}` or `(…)` on its line as its argument: close it with `;` there
     for i in range(len(toks) - 1):
-        if toks[i] in ("#M", "S2") and toks[i + 1][:1] in ("{", "(", "="): toks[i] += ";"
+        if toks[i] in ("#M", "S2") and toks[i + 1][:1] in ("{", "(", "="):
+            # (… or with a line break: a reference without arguments ends with its line — marked \2: `;` in the canonical text, a line break in the layouts)
+            toks[i] += ";" if (toks[i + 1][:1] == "=" or rng.random() < 0.5) else "\2"
     if rng.random() < 0.06:
         # a written sharp, later a function definition, and a call of that function: whether the definition is found must not depend on
         # what else is written on its line
@@ -75,7 +81,7 @@ NL_SEPS = ["\n", "\r\n", "\n\n", " \n", "\t\n ", " //%s\n", "\t// %s\n", " /*%s*
 def layout(rng, toks, rich=True):
     out = []
     for i, t in enumerate(toks):
-        if t.endswith("\0"):
+        if t.endswith("\0") or t.endswith("\2"):
             out.append(t[:-1]); sep = rng.choice(NL_SEPS if rich else NL_SEPS[:5])
             out.append(sep % rng.choice(COMMENT_TEXT).replace("*", "") if "%s" in sep else sep)
             continue
@@ -110,7 +116,7 @@ def streams(tier, rng, P, only=None, cases=None):
         n = 8000 if big else 1000
         for i in range(n):
             toks = gen_tokens(rng)
-            a = "".join(t[:-1] + "\n" if t.endswith("\0") else (t[:-1] + "; " if t.endswith("\1") else t + " ") for t in toks)
+            a = "".join(t[:-1] + "\n" if t.endswith("\0") else (t[:-1] + "; " if (t.endswith("\1") or t.endswith("\2")) else t + " ") for t in toks)
             if i % 5 == 4 and not any(("{" in t or '"' in t or "#" in t or "/" in t) for t in toks):
                 b = widen(layout(rng, toks, rich=False)); kind = "wide"
             else:
